@@ -423,6 +423,79 @@ func (w *world) checkViews(where string) *h.Failure {
 	return nil
 }
 
+// checkMidOperation looks at the store at every write boundary strictly inside
+// the operation that produced boundaries (b0, b1].
+func (w *world) checkMidOperation(where string, b0, b1 int, others []*chanops.Live, target *channel.ID) *h.Failure {
+	var want []*chanops.Live
+	for _, l := range others {
+		if target == nil || l.ID() != *target {
+			want = append(want, l)
+		}
+	}
+	if len(want) == 0 {
+		return nil
+	}
+	for i := b0 + 1; i < b1; i++ {
+		w.o.Class("mid-operation-view-check")
+		pr := keyvalue.NewPersistRestorer(w.fk.Materialize(i))
+		contains := func(view string, got []*persistence.Channel, wantIn []*chanops.Live) *h.Failure {
+			byID := map[channel.ID]*persistence.Channel{}
+			for _, ch := range got {
+				byID[ch.ID()] = ch
+			}
+			for _, l := range wantIn {
+				ch, ok := byID[l.ID()]
+				if !ok {
+					return h.Failf("mid-operation:view-missing-channel", "%s: with the store as it is after write %d of %d of the operation, %s does not yield the untouched live channel %s", where, i-b0, b1-b0, view, idStr(l.ID()))
+				}
+				sn, err := chanops.SnapRestored(ch)
+				if err != nil {
+					return h.Failf("mid-operation:restored-unencodable", "%s: write %d of %d, %s, channel %s: %v", where, i-b0, b1-b0, view, idStr(l.ID()), err)
+				}
+				if field, detail := l.Snap().Diff(sn); field != "" {
+					return h.Failf("mid-operation:mismatch:"+field, "%s: write %d of %d, %s: the untouched channel %s differs from its live machine: %s", where, i-b0, b1-b0, view, idStr(l.ID()), detail)
+				}
+			}
+			return nil
+		}
+		for pi, p := range w.idents {
+			var wantP []*chanops.Live
+			for _, l := range want {
+				if hasPeer(l, pi) {
+					wantP = append(wantP, l)
+				}
+			}
+			if len(wantP) == 0 {
+				continue
+			}
+			var chans []*persistence.Channel
+			if it, err := pr.RestorePeer(p); err == nil {
+				chans, _ = drain(it)
+			}
+			if f := contains(fmt.Sprintf("RestorePeer(identity %d)", pi), chans, wantP); f != nil {
+				return f
+			}
+		}
+		var chans []*persistence.Channel
+		if it, err := pr.RestoreAll(); err == nil {
+			chans, _ = drain(it)
+		}
+		if f := contains("RestoreAll", chans, want); f != nil {
+			return f
+		}
+		for _, l := range want {
+			ch, err := pr.RestoreChannel(bg, l.ID())
+			if err != nil || ch == nil {
+				return h.Failf("mid-operation:restore-channel-error", "%s: write %d of %d: RestoreChannel of the untouched live channel %s fails: %v", where, i-b0, b1-b0, idStr(l.ID()), err)
+			}
+			if f := contains("RestoreChannel", []*persistence.Channel{ch}, []*chanops.Live{l}); f != nil {
+				return f
+			}
+		}
+	}
+	return nil
+}
+
 // printable renders a raw key with the channel id abbreviated and other
 // non-printable bytes escaped.
 func printable(key string, id channel.ID) string {
@@ -499,6 +572,8 @@ func run(c Case, o *h.Outcome) *h.Failure {
 		before := last // what every known channel restored to after the previous step
 		var target *channel.ID
 		cur := w.slots[stp.Slot]
+		b0 := w.fk.NumBoundaries()
+		othersBefore := w.live() // live channels before the step (the step touches at most one of them)
 		switch stp.Kind {
 		case "create":
 			if cur != nil || stp.Chan == nil {
@@ -591,6 +666,13 @@ func run(c Case, o *h.Outcome) *h.Failure {
 		}
 
 		if f := w.checkViews(where); f != nil {
+			return f
+		}
+		// ... nor at any moment in between: the store as it is between two writes
+		// of this operation (what a concurrent reader, or a restart after a crash,
+		// finds) still yields every OTHER live channel, with its data, in every
+		// view.  Nothing is demanded for the channel the operation works on.
+		if f := w.checkMidOperation(where, b0, w.fk.NumBoundaries(), othersBefore, target); f != nil {
 			return f
 		}
 		// operations on one channel never change what is restored for another
